@@ -13,6 +13,14 @@ Theorem C05_authentic : forall (F : list N -> list N) (c : commune) (x : fp) (po
   c' = c \/ MacCoincidence F c c'.
 Proof. exact recover_authentic. Qed.
 
+(* stronger: the authentication tag alone binds the result.  ANY first share carrying the tag of the sharing c -
+   with its threshold, point, value, encrypted message or encrypted coins altered in any way - recovers c itself
+   or exhibits a MAC coincidence; it never yields another message *)
+Theorem C05_honest_tag_binds : forall (F : list N -> list N) (c : commune) (s : ashare) (rest : list ashare) (c' : commune),
+  aJ s = snd (send_mac F (transcript_of F c) Params.mac_length) ->
+  arecover F (s :: rest) = Ok c' -> c' = c \/ MacCoincidence F c c'.
+Proof. exact honest_tag_binds. Qed.
+
 (* whatever is recovered carries a MAC that verifies: for an ARBITRARY first share *)
 Theorem C05_recovered_is_authenticated : forall (F : list N -> list N) (s : ashare) (rest : list ashare) (c' : commune),
   arecover F (s :: rest) = Ok c' ->
@@ -31,6 +39,17 @@ Proof. exact arecover_tamper_J. Qed.
 Theorem C05_nonfirst_fields_ignored : forall (F : list N -> list N) (s : ashare) (rest rest' : list ashare),
   map aS rest = map aS rest' -> arecover F (s :: rest) = arecover F (s :: rest').
 Proof. exact arecover_nonfirst_ignored. Qed.
+
+(* mechanism of the known finding C05/empty-sharing: when the first share carries empty C and D, the outcome does
+   not depend on the interpolated key (so altered points / values cannot be noticed); the result is still the
+   shared (empty) message or an error *)
+Theorem C05_empty_sharing_key_unbound : forall (F : list N -> list N) (s : ashare) (rest : list ashare) (keyb : bytes),
+  aC s = [] -> aD s = [] -> Shamir.recover (aA s) (map aS (s :: rest)) = Ok keyb ->
+  (Params.adss_key_take <= length keyb)%nat ->
+  arecover F (s :: rest) =
+    if verify F {| cA := aA s; cM := []; cR := []; cT := None |} (aJ s)
+    then Ok {| cA := aA s; cM := []; cR := []; cT := None |} else Err.
+Proof. exact arecover_empty_key_unbound. Qed.
 
 Theorem C05_never_panics : forall (F : list N -> list N) (shs : list ashare), arecover F shs <> Panic.
 Proof. exact arecover_never_panics. Qed.
